@@ -185,8 +185,11 @@ def check_constructors(ctx):
     ctx.check("C01-b", ok, sfn, "Source.__init__ does not keep the first element as it was given (`self._first = %s`): converting an "
               "iterable to an iterator at construction makes it one-shot, so a second call of the Source yields nothing"
               % (A.src(firsts[0].value) if firsts else "?"), detail="_first is the given first element", construct="source-first")
-    guards = [i for i in A.walk_local(sfn) if isinstance(i, ast.If) and "callable(first)" in A.src(i.test) and "__iter__" in A.src(i.test)]
-    okg = any(A.src(g.test).replace('"', "'") == "not (callable(first) or hasattr(first, '__iter__'))" and any(
+    fvar = firsts[0].value.id if firsts and isinstance(firsts[0].value, ast.Name) else None
+    fmap = {fvar: "first"} if fvar else {}
+    guards = [i for i in A.walk_local(sfn) if isinstance(i, ast.If) and "callable(first)" in A.src_with(i.test, fmap)
+              and "__iter__" in A.src(i.test)]
+    okg = any(A.src_with(g.test, fmap).replace('"', "'") == "not (callable(first) or hasattr(first, '__iter__'))" and any(
         isinstance(r, ast.Raise) and res.canon(r.exc.func) == LTE for r in g.body) for g in guards)
     ctx.check("C01-b", okg, sfn, "Source.__init__ does not reject a first element that is neither callable nor iterable with LenaTypeError",
               detail="first element checked at construction", construct="source-first-check")
@@ -226,6 +229,16 @@ def check_source_call(ctx):
     res = ctx.res
     fn = ctx.tree.func(SRC, "Source.__call__")
     n = 0
+    # local names: the alias of self._first and the variable that carries the first element's flow
+    nm = {}
+    for s in A.walk_local(fn):
+        if isinstance(s, ast.Assign) and len(s.targets) == 1 and isinstance(s.targets[0], ast.Name):
+            if A.src(s.value) == "self._first":
+                nm[s.targets[0].id] = "first"
+    for s in A.walk_local(fn):
+        if isinstance(s, ast.Assign) and len(s.targets) == 1 and isinstance(s.targets[0], ast.Name) \
+                and A.src_with(s.value, nm) in ("first()", "first", "self._first()", "self._first") and s.targets[0].id not in nm:
+            nm[s.targets[0].id] = "flow"
     for p in P.paths_of(fn):
         if p.end == "raise":
             continue
@@ -235,31 +248,32 @@ def check_source_call(ctx):
             continue
         n += 1
         v = rets[0].value
-        lits = p.literal_srcs()
+        lits = [A.src_with(t, nm) if pol else ("not (%s)" % A.src_with(t, nm) if isinstance(t, (ast.BoolOp, ast.Compare, ast.IfExp))
+                                                 else "not " + A.src_with(t, nm)) for t, pol in p.literals()]
         # definition of the flow variable on this path
         flowdef = None
         for e in p.ev:
             if e[0] == "stmt" and isinstance(e[1], ast.Assign) and len(e[1].targets) == 1 and isinstance(e[1].targets[0], ast.Name) \
-                    and e[1].targets[0].id == "flow":
+                    and nm.get(e[1].targets[0].id) == "flow":
                 flowdef = e[1].value
         if flowdef is None:
             # neither callable nor iterable: excluded by the constructor's check of the first element
             ctx.ok("C01-c", fn, "path [%s] is excluded by Source.__init__ (first is callable or iterable)" % p.describe(2), nontrivial=False)
             continue
-        okdef = A.src(flowdef) in ("first()", "first", "self._first()", "self._first")
+        okdef = A.src_with(flowdef, nm) in ("first()", "first", "self._first()", "self._first")
         if "self._tail" in lits:
-            ok = isinstance(v, ast.Call) and A.src(v.func) == "self._tail.run" and len(v.args) == 1 and A.src(v.args[0]) == "flow"
+            ok = isinstance(v, ast.Call) and A.src(v.func) == "self._tail.run" and len(v.args) == 1 and A.src_with(v.args[0], nm) == "flow"
             ctx.check("C01-c", ok and okdef, rets[0], "Source.__call__ with a non-empty tail returns `%s`: it must return self._tail.run(<first() "
                       "or first>)" % A.src(v), detail="tail applied to the first element's flow", path=p)
         elif "not self._tail" in lits:
-            ok = isinstance(v, ast.Call) and res.canon(v.func) in WRAPPERS and A.src(v.args[0]) == "flow"
+            ok = isinstance(v, ast.Call) and res.canon(v.func) in WRAPPERS and A.src_with(v.args[0], nm) == "flow"
             ctx.check("C01-c", ok and okdef, rets[0], "Source.__call__ without a tail returns `%s`, not flow_to_iter(flow)" % A.src(v),
                       detail="no tail: the first element's flow itself", path=p)
         else:
             ctx.violation("C01-c", rets[0], "Source.__call__ returns without testing self._tail [%s]: a non-empty tail would be skipped" % p.describe(),
                           construct="tail-untested", path=p)
         if "callable(first)" in lits:
-            ctx.check("C01-c", flowdef is not None and A.src(flowdef) in ("first()", "self._first()"), fn, "a callable first element is not called",
+            ctx.check("C01-c", flowdef is not None and A.src_with(flowdef, nm) in ("first()", "self._first()"), fn, "a callable first element is not called",
                       detail="callable first is called", construct="first-called", path=p)
     ctx.instances_floor("C01-c", n, 2, "paths of Source.__call__")
 
@@ -270,13 +284,21 @@ def check_flatten(ctx):
     if not ctx.require(len(loops) == 1, "C01-d", fn, "flatten: expected one loop"):
         return
     loop = loops[0]
-    ctx.check("C01-d", A.src(loop.iter) == "seq", loop, "flatten iterates `%s`, not the sequence in order" % A.src(loop.iter),
+    seqp = A.func_params(fn)[0]
+    init_lists = [s.targets[0].id for s in A.body_wo_doc(fn) if isinstance(s, ast.Assign) and len(s.targets) == 1
+                  and isinstance(s.targets[0], ast.Name) and A.src(s.value) in ("[]", "list()")]
+    rets = [r.value.id for r in A.walk_local(fn) if isinstance(r, ast.Return) and isinstance(r.value, ast.Name)]
+    accs = [x for x in init_lists if x in rets]
+    if not ctx.require(len(accs) == 1, "C01-d", fn, "flatten: expected one list created empty and returned"):
+        return
+    acc = accs[0]
+    ctx.check("C01-d", A.src(loop.iter) == seqp, loop, "flatten iterates `%s`, not the sequence in order" % A.src(loop.iter),
               detail="flatten iterates seq forwards", construct="flatten-iter")
     el = loop.target.id
     for p in P.loop_body_paths(loop):
         calls = [c for e in p.ev if e[0] == "stmt" for c in A.walk_local(e[1])
                  if isinstance(c, ast.Call) and isinstance(c.func, ast.Attribute) and c.func.attr in ("append", "extend", "insert", "appendleft")
-                 and A.src(c.func.value) == "flattened"]
+                 and A.src(c.func.value) == acc]
         ok = len(calls) == 1 and calls[0].func.attr in ("append", "extend")
         if ok and calls[0].func.attr == "extend":
             ok = A.src(calls[0].args[0]) == "flatten(%s)" % el and "isinstance(%s, lena_sequence.LenaSequence)" % el in p.literal_srcs()
@@ -284,7 +306,7 @@ def check_flatten(ctx):
             ok = A.src(calls[0].args[0]) == el
         ctx.check("C01-d", ok, loop, "flatten does not add the element exactly once at the end of the list on path [%s] (%s)" % (
             p.describe(), ", ".join(A.src(c) for c in calls) or "nothing added"), detail="one append/extend per element [%s]" % p.describe(2),
-            construct="flatten:%s" % ",".join(A.src(c) for c in calls), path=p)
+            construct="flatten:%s" % ",".join(A.src_with(c, {el: "el", acc: "flattened"}) for c in calls), path=p)
 
 
 def check(ctx):
